@@ -193,4 +193,4 @@ QUERIES = [
                                "definers_of_f": "subsets per tier", "edits": EDITS[:5]},
           outside=["references in the 4-space query"]),
 ]
-BUDGET = {"quick": 420, "thorough": 3000}
+BUDGET = {"quick": 420, "thorough": 1200}
